@@ -254,6 +254,10 @@ def default_app_interp(t, seed=0):
     return funcs
 
 
+CONSTRUCTION_BOX = {"nx_at_construction": (3, 400), "pf_at_construction": (100.0, 5000.0), "pi_at_construction": (5000.0, 9000.0), "T_at_construction": (80.0, 350.0),
+                    "api_at_construction": (12.0, 55.0), "gg_at_construction": (0.56, 1.3), "R_at_construction": (20.0, 2500.0), "S_at_construction": (0.0, 25.0)}
+
+
 def prove_equal_cas(lhs, rhs, box, hyp=None, positive=None, seed=0, npoints=12, rel_tol="1e-30", ints=()):
     """lhs == rhs for every point of `box` (dict var-name -> (lo, hi)) [that satisfies hyp].
     PROVED iff sympy normal form of the difference is 0 (and the numeric double-check agrees);
@@ -264,6 +268,14 @@ def prove_equal_cas(lhs, rhs, box, hyp=None, positive=None, seed=0, npoints=12, 
     rng = random.Random(seed)
     if thorough():
         npoints = npoints * 4
+    # symbols for the values an object was CONSTRUCTED with (contracts reassign the public fields afterwards): a result
+    # that still mentions one is stale state; they get a range of their own so that the numeric pass can separate
+    extra = {v.args[0]: v.sort for t_ in (lhs, rhs) for v in tm.free_vars(t_) if v.args[0].endswith("_at_construction") and v.args[0] not in box}
+    if extra:
+        box = dict(box)
+        for nm, srt in extra.items():
+            box[nm] = CONSTRUCTION_BOX.get(nm, (0.5, 2.0))
+        ints = tuple(ints) + tuple(nm for nm, srt in extra.items() if srt == tm.I)
     d = tm.sub(lhs, rhs)
     # numeric pass first: cheap, and gives the witness
     funcs = default_app_interp(tm.add(lhs, rhs), seed)
